@@ -13,6 +13,7 @@ import drv_interp
 import drv_finders
 import drv_moon
 import drv_sun
+import drv_orbit
 
 YMIN, YMAX = -4712, 6000
 
@@ -498,4 +499,35 @@ def plan_C14(tier, seed):
                      "equation-of-time daily-change clause skipped when the minutes field is 0 (the tuple cannot carry the sign there)"])
 
 
-PLANS = {"C14": plan_C14, "C15": plan_C15, "C13": plan_C13, "C12": plan_C12, "C17": plan_C17, "C02": plan_C02, "C03": plan_C03, "C04": plan_C04, "C10": plan_C10, "C01": plan_C01, "C16": plan_C16, "C19": plan_C19}
+def _nt_c07(ev):
+    return (ev["k"], ev["pl"], ev["tf"])
+
+
+def plan_C07(tier, seed):
+    T = ("Trace_Orbit", "Trace.cfg")
+    if tier == "quick":
+        reps, kw = 2, dict(nsparse=700, runs=3, runlen=250, nsec=20, nkep=150, nsum=25, ncor=80)
+    else:
+        reps, kw = 8, dict(nsparse=20000, runs=20, runlen=1500, nsec=400, nkep=4000, nsum=300, ncor=1500)
+    sh = []
+    for pl in drv_orbit.PLANETS:
+        for r in range(reps):
+            sh.append(Shard("%s_%d" % (pl, r), drv_orbit.gen_planet, dict(pl=pl, seed=seed * 100 + r, **kw), *T))
+    sh.append(Shard("tables", drv_orbit.gen_tables, dict(), *T))
+    return dict(
+        mc=[MC("MC_Orbit", "MC_Orbit.cfg", workers=2, heap="2g", note="abstract orbit: longitude seam and rate-bound logic on a grid")],
+        shards=sh, level="model_checking", exhaustive=False, nontrivial=_nt_c07,
+        rule="Per planet (8) and seed: sparse samples over -2000..4000, runs of daily steps and groups of 1-second steps, in "
+             "increasing time; TLC checks longitude in [0,360), |B| <= i + 0.05, q(1-1%) <= R <= Q(1+1%) against the library's mean "
+             "elements of date (themselves bounded by the linear Table 31.A model typed into Orbit.tla), longitude strictly "
+             "increasing and the rate within 3% of the Keplerian extremes (squared, no root) as an action property over consecutive "
+             "samples. Two-body comparison: unit vectors of the VSOP87 position and of the position from the library's own mean "
+             "elements + kepler_equation: squared chord <= per-planet amplitude, distance 1%. Direct term-by-term fsum of the "
+             "tables vs vsop_pos (harness oracle; 1e-11 rad + 64 ulp), FK5 and aberration sizes and the nutation term as linear "
+             "relations between library outputs, series mean-longitude rate vs element table (1e-6), Kepler's third law with "
+             "the sidereal rate. Distinct case = (kind, planet, instant).",
+        assumptions=["perturbation amplitudes: 0.1 deg Mercury-Mars, 1 / 1.5 / 2 / 2.5 deg Jupiter..Neptune",
+                     "direct-summation tolerance widened by 64 ulp of the unreduced series value (float noise of the summation itself)"])
+
+
+PLANS = {"C07": plan_C07, "C14": plan_C14, "C15": plan_C15, "C13": plan_C13, "C12": plan_C12, "C17": plan_C17, "C02": plan_C02, "C03": plan_C03, "C04": plan_C04, "C10": plan_C10, "C01": plan_C01, "C16": plan_C16, "C19": plan_C19}
